@@ -127,12 +127,18 @@ def dec(line):
     return v
 
 
-def model_batch(suite, cases):
-    """Run the extracted model on a list of case values; returns the list of outputs."""
+def modeld_path(pid):
+    return os.path.join(BUILD, pid, "modeld")
+
+
+def model_batch(suite, cases, pid=None):
+    """Run the extracted model of property `pid` (default: derived from the suite name
+    'c18.xyz' -> C18) on a list of case values; returns the list of outputs."""
     if not cases:
         return []
+    pid = pid or suite.split(".")[0].upper()
     data = "\n".join(suite + " " + enc(c) for c in cases) + "\n"
-    p = subprocess.run([MODELD], input=data.encode(), stdout=subprocess.PIPE, stderr=subprocess.PIPE, timeout=3600)
+    p = subprocess.run([modeld_path(pid)], input=data.encode(), stdout=subprocess.PIPE, stderr=subprocess.PIPE, timeout=3600)
     if p.returncode != 0:
         raise RuntimeError("modeld failed: %s" % p.stderr.decode()[-2000:])
     lines = p.stdout.decode().splitlines()
@@ -213,35 +219,40 @@ def regenerate():
             fails.append(line[len("TRANSLATE-FAIL "):])
     if rc != 0 and not fails:
         fails.append("pyfrag crashed: " + out[-500:])
-    sh("%s %s/tools/gen_dispatch.py" % (sys.executable, VERIF), timeout=60)
     return fails
 
 
 def make(targets=None, jobs=16, timeout=1700):
     """Full .vo build (never -vos) of the given targets (default: all)."""
     if not os.path.exists(os.path.join(COQ, "Makefile")):
-        sh("coq_makefile -f _CoqProject -o Makefile $(find . -name '*.v' | grep -v '^./Extract.v' | sort)", cwd=COQ)
+        refresh_makefile()
     t = " ".join(targets) if targets else ""
     return sh("timeout %d make -j%d %s 2>&1" % (timeout, jobs, t), cwd=COQ, timeout=timeout + 30)
 
 
 def refresh_makefile():
-    sh("coq_makefile -f _CoqProject -o Makefile $(find . -name '*.v' | grep -v '^./Extract.v' | sort)", cwd=COQ)
+    sh("coq_makefile -f _CoqProject -o Makefile $(find . -name '*.v' | sort)", cwd=COQ)
 
 
-def build_modeld():
-    ex = os.path.join(BUILD, "extracted")
+def build_modeld(pid):
+    """Extract coq/<pid>/Run.v (its `dispatch`) and link it with the generic driver."""
+    ex = os.path.join(BUILD, pid)
     os.makedirs(ex, exist_ok=True)
-    rc, out = sh("timeout 600 coqc -Q %s NR %s/Extract.v" % (COQ, COQ), cwd=ex)
+    with open(os.path.join(ex, "Extract.v"), "w") as f:
+        f.write("(* generated: ExtrOcamlBasic only, no Extract Constant; N/Z/positive stay Coq datatypes *)\n"
+                "From Coq Require Import Extraction ExtrOcamlBasic.\n"
+                "From NR Require Import Lib.Base %s.Run.\n"
+                "Extraction \"model.ml\" NR.%s.Run.dispatch Lib.Base.Z_of_dec Lib.Base.dec_of_Z.\n" % (pid, pid))
+    rc, out = sh("timeout 900 coqc -Q %s NR Extract.v" % COQ, cwd=ex)
     if rc != 0:
         return rc, out
     new = open(os.path.join(ex, "model.ml")).read()
     stamp = os.path.join(ex, ".stamp")
     h = hashlib.sha256((new + open(os.path.join(VERIF, "tools/modeld/driver.ml")).read()).encode()).hexdigest()
-    if os.path.exists(MODELD) and os.path.exists(stamp) and open(stamp).read() == h:
+    if os.path.exists(modeld_path(pid)) and os.path.exists(stamp) and open(stamp).read() == h:
         return 0, "modeld up to date"
     sh("cp %s/tools/modeld/driver.ml ." % VERIF, cwd=ex)
-    rc, out2 = sh("ocamlfind ocamlopt -w -a -O3 model.mli model.ml driver.ml -o ../modeld.new && mv ../modeld.new ../modeld", cwd=ex, timeout=600)
+    rc, out2 = sh("ocamlfind ocamlopt -w -a -O3 model.mli model.ml driver.ml -o modeld.new && mv modeld.new modeld", cwd=ex, timeout=900)
     if rc == 0:
         open(stamp, "w").write(h)
     return rc, out + out2
@@ -257,7 +268,7 @@ def prove(pid):
     with BuildLock():
         res["translate_failures"] = regenerate()
         refresh_makefile()
-        rc, out = make(["Props/%s.vo" % pid, "Dispatch.vo"])
+        rc, out = make(["Props/%s.vo" % pid, "%s/Run.vo" % pid])
         res["log"] = out[-6000:]
         res["make_rc"] = rc
         # always recompile the property file itself to capture Print Assumptions
@@ -265,7 +276,7 @@ def prove(pid):
         if rc == 0:
             prc, pout = sh("timeout 600 coqc -Q . NR Props/%s.v" % pid, cwd=COQ)
             res["log"] += pout[-3000:]
-            mrc, mout = build_modeld()
+            mrc, mout = build_modeld(pid)
             if mrc != 0:
                 res["failed"].append("extract:modeld")
                 res["log"] += mout[-3000:]
@@ -323,8 +334,12 @@ def coq_closure(rel):
 def load_findings(pid):
     """-> (open list of dicts {cls, text}, fixed list)"""
     opens, fixed = [], []
-    if os.path.exists(FINDINGS_FILE):
-        for line in open(FINDINGS_FILE):
+    import glob
+    files = [FINDINGS_FILE] + sorted(glob.glob(os.path.join(VERIF, "findings.d", "*.txt")))
+    for fn in files:
+        if not os.path.exists(fn):
+            continue
+        for line in open(fn):
             line = line.strip()
             if not line or line.startswith("#"):
                 continue
